@@ -80,7 +80,8 @@ def ps_lattice(rng, tier: str) -> list[bytes]:
         args.append(b" -nop " + sw + b" " + B64)
         args.append(b" -NoP -NonI " + sw.upper() + b" " + B64)
         args.append(b" " + sw[:2] + b"^" + sw[2:] + b" ZQBj^AGgAbwAgAGIAZQ^BlAA==")
-    args += [b" -e ^\r\n" + B64, b"/e^\r\n" + B64, b" -e QUJD", b" -e QUJ", b" -e " + B64[:-2], b" -e //8AQQA=", b" -e ANgA3A==",
+    args += [b" -e //5lAGMAaABvAA==", b" -e /v8AZQBjAGgAbwA=", b" -enc //5lAGMAaABvACAAYgA=", b" -e //4=",      # byte-order marks (FF FE / FE FF) before the text
+             b" -e ^\r\n" + B64, b"/e^\r\n" + B64, b" -e QUJD", b" -e QUJ", b" -e " + B64[:-2], b" -e //8AQQA=", b" -e ANgA3A==",
              b" -e QQBCAEMA", b" -e 4pyTAA=="]
     post = [b"", b'"', b"'", b"')", b"') do x", b'" & y', b" tail"]
     out = []
@@ -178,7 +179,9 @@ def run(prop: str, tier: str) -> int:
             data = bytes(ev.get("data", ev.get("s", [])))
             facts = {"clause": c, "kind": ev["kind"]}
             if c == "ps.end.nocontext":
-                facts["end_is_len_minus_start"] = all(h["e"] == len(data) - h["s"] or h["e"] == len(data) for h in ev["hits"]
+                # TLC has established that the only differences are ends of commands without encoded argument and without
+                # enclosing context; the finding's shape: at least one of them ends at len(data) - start
+                facts["end_is_len_minus_start"] = any(h["e"] == len(data) - h["s"] and h["e"] != len(data) for h in ev["hits"]
                                                       if any(i[0] == h["s"] and i[1] < 0 for i in ev["inds"]))
             res.violation(f"ShellTrace rejects clause {c} for {ev['kind']} on {data[:160]!r}: got "
                           f"{[(h['s'], h['e'], h['ty'], bytes(h['val'])[:60], h['obf']) for h in ev.get('hits', [])][:4] if ev['kind'] != 'caret' else bytes(ev['out'])!r}"
